@@ -28,6 +28,7 @@ def run_shards(prop, tier, seed, nshards, workdir):
     envv['PBR_VERSION'] = '0.0.0'
     envv['PYTHONDONTWRITEBYTECODE'] = '1'
     envv['OMP_NUM_THREADS'] = '1'
+    envv['MPLBACKEND'] = 'Agg'
     envv['OPENBLAS_NUM_THREADS'] = '1'
     envv['MKL_NUM_THREADS'] = '1'
     for shard in range(nshards):
